@@ -15,6 +15,8 @@
 -/
 import QecVerif.Lemmas.Decoders
 import QecVerif.Lemmas.Lattice.Toric
+import QecVerif.Lemmas.Lattice.Planar
+import QecVerif.Lemmas.Lattice.PlanarCode
 import QecVerif.Lemmas.MwpmReduce
 import QecVerif.Lemmas.MwpmSplit
 namespace Qec.TJoin
@@ -223,6 +225,15 @@ theorem deg_ge_of_mem (m : List (V × V)) (x : V × V) (p : V) (h : x ∈ m) :
     · omega
     · have := ih h; omega
 
+theorem deg_eq_zero_of_pred (m : List (V × V)) (P : V → Prop) (h : ∀ x ∈ m, P x.1 ∧ P x.2)
+    (p : V) (hp : ¬ P p) : deg m p = 0 := by
+  induction m with
+  | nil => rfl
+  | cons x xs ih =>
+    rw [deg_cons, ih (fun y hy => h y (by simp [hy]))]
+    have := h x (by simp)
+    rw [ind_ne (fun e => hp (by rw [← e]; exact this.1)), ind_ne (fun e => hp (by rw [← e]; exact this.2))]
+
 theorem mem_ends_of_deg_pos (m : List (V × V)) (p : V) (h : 0 < deg m p) :
     ∃ x ∈ m, x.1 = p ∨ x.2 = p := by
   have : p ∈ ends m := List.count_pos_iff.mp h
@@ -272,6 +283,364 @@ theorem tjoin_complete (dist : V → V → Nat) (hsymm : ∀ a b, dist a b = dis
       omega
     exact pairsOf_complete D x.1 x.2 h1 h2 hne
   · rw [← hperm.length_eq, length_ends]
+
+/-! ## graphs with a boundary: from the T-join to a matching of the decoder's graph
+
+  `ρ v` — `v` is a real vertex; every other vertex is a boundary (virtual) vertex, all of them at
+  mutual distance 0.  `vp a` — the virtual vertex a real vertex `a` may be matched to in the decoder's
+  graph, at weight `bd a`.  `dist2` — the metric among real vertices.  The decoder's graph has the
+  real odd-degree vertices `ds`, a list `vnodes` of virtual vertices containing every `vp d`, the
+  edges `(d, vp d)`, all pairs of `ds` and all pairs of `vnodes` (weight 0). -/
+
+/-- `extract`, also keeping any symmetric property of the pairs -/
+theorem extractP (dist : V → V → Nat) (hsymm : ∀ a b, dist a b = dist b a)
+    (P : V → V → Prop) (hP : ∀ u v, P u v → P v u)
+    (m : List (V × V)) (hm : ∀ x ∈ m, P x.1 x.2) (a : V) (h : 0 < deg m a) :
+    ∃ a' m', (∀ v, deg m v = deg ((a, a') :: m') v) ∧ cost dist m = cost dist ((a, a') :: m') ∧
+      P a a' ∧ ∀ x ∈ m', P x.1 x.2 := by
+  induction m with
+  | nil => simp [deg_nil] at h
+  | cons x l ih =>
+    obtain ⟨x1, x2⟩ := x
+    have hx := hm (x1, x2) (by simp)
+    have hl : ∀ y ∈ l, P y.1 y.2 := fun y hy => hm y (by simp [hy])
+    by_cases h1 : x1 = a
+    · subst h1
+      exact ⟨x2, l, fun _ => rfl, rfl, hx, hl⟩
+    · by_cases h2 : x2 = a
+      · subst h2
+        refine ⟨x1, l, fun v => ?_, ?_, hP _ _ hx, hl⟩
+        · rw [deg_cons, deg_cons]; simp only; omega
+        · rw [cost_cons, cost_cons]; simp only; rw [hsymm]
+      · have hla : 0 < deg l a := by
+          rw [deg_cons, ind_ne h1, ind_ne h2] at h; simpa using h
+        obtain ⟨a', m', hd, hc, hp1, hp2⟩ := ih hl hla
+        refine ⟨a', (x1, x2) :: m', fun v => ?_, ?_, hp1, ?_⟩
+        · have := hd v
+          rw [deg_cons] at this
+          rw [deg_cons, deg_cons, deg_cons, this]; simp only; omega
+        · rw [cost_cons] at hc
+          rw [cost_cons, cost_cons, cost_cons, hc]; simp only; omega
+        · intro y hy
+          rcases List.mem_cons.mp hy with rfl | hy
+          · exact hx
+          · exact hp2 y hy
+
+section boundary
+variable (ρ : V → Bool) (vp : V → V) (bd : V → Nat) (d dist2 : V → V → Nat)
+
+/-- the metric of the graph in which all non-real vertices are one point `∂` with
+    `dist(a, ∂) = bd a` -/
+def pd (a b : V) : Nat :=
+  if ρ a then (if ρ b then min (dist2 a b) (bd a + bd b) else bd a) else (if ρ b then bd b else 0)
+
+omit [DecidableEq V] in
+theorem pd_symm (h2 : ∀ a b, dist2 a b = dist2 b a) (a b : V) : pd ρ bd dist2 a b = pd ρ bd dist2 b a := by
+  unfold pd
+  have := h2 a b
+  cases ρ a <;> cases ρ b <;> simp <;> omega
+
+omit [DecidableEq V] in
+theorem pd_triangle (h2 : ∀ a b, dist2 a b = dist2 b a) (htri : ∀ a b c, dist2 a c ≤ dist2 a b + dist2 b c)
+    (hlip : ∀ a b, bd a ≤ dist2 a b + bd b) (a b c : V) :
+    pd ρ bd dist2 a c ≤ pd ρ bd dist2 a b + pd ρ bd dist2 b c := by
+  unfold pd
+  have t1 := htri a b c
+  have l1 := hlip a b
+  have l2 := hlip c b
+  have l3 := hlip b a
+  have l4 := hlip b c
+  have s1 := h2 a b
+  have s2 := h2 b c
+  cases ρ a <;> cases ρ b <;> cases ρ c <;> simp <;> omega
+
+/-- the pairs allowed in the decoder-shaped matching: two distinct real vertices, or a real vertex
+    with its own virtual vertex -/
+def Legal (a b : V) : Prop :=
+  (ρ a = true ∧ ρ b = true ∧ a ≠ b) ∨ (ρ a = true ∧ b = vp a) ∨ (ρ b = true ∧ a = vp b)
+
+omit [DecidableEq V] in
+theorem Legal.symm {a b : V} (h : Legal ρ vp a b) : Legal ρ vp b a := by
+  rcases h with ⟨h1, h2, h3⟩ | h | h
+  · exact .inl ⟨h2, h1, fun e => h3 e.symm⟩
+  · exact .inr (.inr h)
+  · exact .inr (.inl h)
+
+/-- send one more real vertex `a` to the boundary: to its own virtual vertex when that is free,
+    otherwise pair it with the real vertex occupying it -/
+theorem sendB (hvp : ∀ a, ρ a = true → ρ (vp a) = false) (hsymm : ∀ a b, d a b = d b a)
+    (hd_vp : ∀ a, ρ a = true → d a (vp a) = bd a)
+    (hd_same : ∀ a b, ρ a = true → ρ b = true → vp a = vp b → d a b ≤ bd a + bd b)
+    (N : List (V × V)) (hleg : ∀ x ∈ N, Legal ρ vp x.1 x.2) (hv1 : ∀ w, ρ w = false → deg N w ≤ 1)
+    (a : V) (ha : ρ a = true) (ha0 : deg N a = 0) :
+    ∃ N', (∀ x ∈ N', Legal ρ vp x.1 x.2) ∧ (∀ w, ρ w = false → deg N' w ≤ 1) ∧
+      (∀ v, ρ v = true → deg N' v = ind a v + deg N v) ∧ cost d N' ≤ cost d N + bd a := by
+  have hva := hvp a ha
+  by_cases hfree : deg N (vp a) = 0
+  · refine ⟨(a, vp a) :: N, ?_, ?_, ?_, ?_⟩
+    · intro x hx
+      rcases List.mem_cons.mp hx with rfl | hx
+      · exact .inr (.inl ⟨ha, rfl⟩)
+      · exact hleg x hx
+    · intro w hw
+      rw [deg_cons]; simp only
+      have h1 : ind a w = 0 := ind_ne (fun e => by rw [e] at ha; rw [ha] at hw; cases hw)
+      by_cases e : vp a = w
+      · subst e; rw [hfree]; have := ind_le (vp a) (vp a); omega
+      · rw [ind_ne e]; have := hv1 w hw; omega
+    · intro v hv
+      rw [deg_cons]; simp only
+      have : ind (vp a) v = 0 := ind_ne (fun e => by rw [e] at hva; rw [hva] at hv; cases hv)
+      omega
+    · rw [cost_cons]; simp only; rw [hd_vp a ha]; omega
+  · obtain ⟨c, N'', hdeg, hcost, hlc, hleg''⟩ :=
+      extractP d hsymm (Legal ρ vp) (fun _ _ h => Legal.symm ρ vp h) N hleg (vp a) (by omega)
+    have hc : ρ c = true ∧ vp a = vp c := by
+      rcases hlc with ⟨h1, _, _⟩ | ⟨h1, _⟩ | h
+      · rw [hva] at h1; cases h1
+      · rw [hva] at h1; cases h1
+      · exact h
+    have hca : c ≠ a := by
+      intro e
+      have := hdeg a
+      rw [deg_cons, ← e, ind_self] at this; simp only at this
+      rw [e] at this
+      omega
+    refine ⟨(a, c) :: N'', ?_, ?_, ?_, ?_⟩
+    · intro x hx
+      rcases List.mem_cons.mp hx with rfl | hx
+      · exact .inl ⟨ha, hc.1, fun e => hca e.symm⟩
+      · exact hleg'' x hx
+    · intro w hw
+      have h1 : ind a w = 0 := ind_ne (fun e => by rw [e] at ha; rw [ha] at hw; cases hw)
+      have h2 : ind c w = 0 := ind_ne (fun e => by rw [e] at hc; rw [hc.1] at hw; cases hw)
+      have := hdeg w
+      rw [deg_cons] at this ⊢; simp only at this ⊢
+      have := hv1 w hw
+      omega
+    · intro v hv
+      have h1 : ind (vp a) v = 0 := ind_ne (fun e => by rw [e] at hva; rw [hva] at hv; cases hv)
+      have := hdeg v
+      rw [deg_cons] at this ⊢; simp only at this ⊢
+      omega
+    · rw [cost_cons] at hcost ⊢; simp only at hcost ⊢
+      have h1 := hd_same a c ha hc.1 hc.2
+      have h2 := hd_vp c hc.1
+      rw [← hc.2, hsymm] at h2
+      omega
+
+/-- **from the T-join to a decoder-shaped matching**: a list of pairs `M` covering every vertex at most
+    once is turned into a list of legal pairs covering the same real vertices (and every virtual
+    vertex at most once) at no more cost than `M` has in the collapsed metric `pd` -/
+theorem to_boundary_matching (hvp : ∀ a, ρ a = true → ρ (vp a) = false) (hsymm : ∀ a b, d a b = d b a)
+    (hd_vp : ∀ a, ρ a = true → d a (vp a) = bd a)
+    (hd_same : ∀ a b, ρ a = true → ρ b = true → vp a = vp b → d a b ≤ bd a + bd b)
+    (hd_le : ∀ a b, ρ a = true → ρ b = true → d a b ≤ dist2 a b)
+    (M : List (V × V)) (hM1 : ∀ v, deg M v ≤ 1) :
+    ∃ N, (∀ x ∈ N, Legal ρ vp x.1 x.2) ∧ (∀ w, ρ w = false → deg N w ≤ 1) ∧
+      (∀ v, ρ v = true → deg N v = deg M v) ∧ cost d N ≤ cost (pd ρ bd dist2) M := by
+  induction M with
+  | nil => exact ⟨[], by simp, fun w _ => by simp [deg_nil], fun v _ => rfl, by simp [cost_nil]⟩
+  | cons p T ih =>
+    obtain ⟨x, y⟩ := p
+    have hT1 : ∀ v, deg T v ≤ 1 := fun v => by
+      have := hM1 v; rw [deg_cons] at this; omega
+    obtain ⟨N, hleg, hv1, hreal, hcost⟩ := ih hT1
+    have hx1 := hM1 x
+    have hy1 := hM1 y
+    rw [deg_cons, ind_self] at hx1 hy1
+    simp only at hx1 hy1
+    have hxy : ind y x = 0 := by omega
+    have hyx : ind x y = 0 := by omega
+    have hTx : deg T x = 0 := by omega
+    have hTy : deg T y = 0 := by omega
+    rw [cost_cons]; simp only
+    cases hx : ρ x <;> cases hy : ρ y
+    · -- both virtual: drop the pair
+      refine ⟨N, hleg, hv1, fun v hv => ?_, by omega⟩
+      have i1 : ind x v = 0 := ind_ne (fun e => by rw [e] at hx; rw [hx] at hv; cases hv)
+      have i2 : ind y v = 0 := ind_ne (fun e => by rw [e] at hy; rw [hy] at hv; cases hv)
+      rw [deg_cons, hreal v hv]; simp only
+      omega
+    · -- y real, x virtual
+      obtain ⟨N', h1, h2, h3, h4⟩ := sendB ρ vp bd d hvp hsymm hd_vp hd_same N hleg hv1 y hy
+        (by rw [hreal y hy]; exact hTy)
+      refine ⟨N', h1, h2, fun v hv => ?_, ?_⟩
+      · have i1 : ind x v = 0 := ind_ne (fun e => by rw [e] at hx; rw [hx] at hv; cases hv)
+        rw [h3 v hv, deg_cons, hreal v hv]; simp only
+        omega
+      · simp only [pd, hx, hy, Bool.false_eq_true, if_false, if_true]; omega
+    · -- x real, y virtual
+      obtain ⟨N', h1, h2, h3, h4⟩ := sendB ρ vp bd d hvp hsymm hd_vp hd_same N hleg hv1 x hx
+        (by rw [hreal x hx]; exact hTx)
+      refine ⟨N', h1, h2, fun v hv => ?_, ?_⟩
+      · have i2 : ind y v = 0 := ind_ne (fun e => by rw [e] at hy; rw [hy] at hv; cases hv)
+        rw [h3 v hv, deg_cons, hreal v hv]; simp only
+        omega
+      · simp only [pd, hx, hy, Bool.false_eq_true, if_false, if_true]; omega
+    · -- both real
+      have hne : x ≠ y := by
+        intro e; rw [e, ind_self] at hyx; cases hyx
+      by_cases hk : dist2 x y ≤ bd x + bd y
+      · refine ⟨(x, y) :: N, ?_, ?_, fun v hv => ?_, ?_⟩
+        · intro p hp
+          rcases List.mem_cons.mp hp with rfl | hp
+          · exact .inl ⟨hx, hy, hne⟩
+          · exact hleg p hp
+        · intro w hw
+          have i1 : ind x w = 0 := ind_ne (fun e => by rw [e] at hx; rw [hx] at hw; cases hw)
+          have i2 : ind y w = 0 := ind_ne (fun e => by rw [e] at hy; rw [hy] at hw; cases hw)
+          rw [deg_cons]; simp only
+          have := hv1 w hw; omega
+        · rw [deg_cons, deg_cons, hreal v hv]
+        · rw [cost_cons]; simp only
+          have := hd_le x y hx hy
+          simp only [pd, hx, hy, if_true]
+          omega
+      · obtain ⟨N1, a1, a2, a3, a4⟩ := sendB ρ vp bd d hvp hsymm hd_vp hd_same N hleg hv1 x hx
+          (by rw [hreal x hx]; exact hTx)
+        obtain ⟨N2, b1, b2, b3, b4⟩ := sendB ρ vp bd d hvp hsymm hd_vp hd_same N1 a1 a2 y hy
+          (by rw [a3 y hy, hreal y hy, hTy, hyx])
+        refine ⟨N2, b1, b2, fun v hv => ?_, ?_⟩
+        · rw [b3 v hv, a3 v hv, deg_cons, hreal v hv]; simp only; omega
+        · simp only [pd, hx, hy, if_true]; omega
+
+omit [DecidableEq V] in
+theorem cost_append (f : V → V → Nat) (a b : List (V × V)) : cost f (a ++ b) = cost f a + cost f b := by
+  simp [cost]
+
+omit [DecidableEq V] in
+theorem cost_eq_zero (f : V → V → Nat) (m : List (V × V)) (h : ∀ x ∈ m, f x.1 x.2 = 0) : cost f m = 0 := by
+  induction m with
+  | nil => rfl
+  | cons x xs ih => rw [cost_cons, h x (by simp), ih (fun y hy => h y (by simp [hy]))]
+
+theorem count_filter_nodup (l : List V) (hl : l.Nodup) (p : V → Bool) (v : V) :
+    (l.filter p).count v = if v ∈ l ∧ p v = true then 1 else 0 := by
+  by_cases hv : v ∈ l ∧ p v = true
+  · rw [if_pos hv, List.count_filter hv.2, List.count_eq_one_of_mem hl hv.1]
+  · rw [if_neg hv]
+    apply List.count_eq_zero_of_not_mem
+    intro hm
+    exact hv (List.mem_filter.mp hm)
+
+/-- **T-join lemma for a graph with a boundary, in the decoder's shape**: `ds` = the real odd-degree
+    vertices of the edge list `E`, `vnodes` = virtual vertices containing `vp d` for every `d ∈ ds`,
+    with `|ds| + |vnodes|` even.  Then the graph with the edges `(d, vp d)`, all pairs of `ds` and all
+    pairs of `vnodes` has a perfect matching of total weight (`d`; 0 among `vnodes`) at most `|E|`. -/
+theorem tjoin_boundary (hvp : ∀ a, ρ a = true → ρ (vp a) = false) (hsymm : ∀ a b, d a b = d b a)
+    (hd_vp : ∀ a, ρ a = true → d a (vp a) = bd a)
+    (hd_same : ∀ a b, ρ a = true → ρ b = true → vp a = vp b → d a b ≤ bd a + bd b)
+    (hd_le : ∀ a b, ρ a = true → ρ b = true → d a b ≤ dist2 a b)
+    (h2 : ∀ a b, dist2 a b = dist2 b a) (htri2 : ∀ a b c, dist2 a c ≤ dist2 a b + dist2 b c)
+    (hlip : ∀ a b, bd a ≤ dist2 a b + bd b)
+    (E : List (V × V)) (hadj : ∀ e ∈ E, pd ρ bd dist2 e.1 e.2 ≤ 1)
+    (ds : List V) (hds : ds.Nodup) (hodd : ∀ v, v ∈ ds ↔ ρ v = true ∧ deg E v % 2 = 1)
+    (vnodes : List V) (hvn : vnodes.Nodup) (hvirt : ∀ w ∈ vnodes, ρ w = false)
+    (hvpmem : ∀ a ∈ ds, vp a ∈ vnodes) (hpar : (ds.length + vnodes.length) % 2 = 0)
+    (hd_out : ∀ x ∈ vnodes, ∀ y ∈ vnodes, d x y = 0) :
+    ∃ M', isPerfectMatchingOfGraph (ds ++ vnodes)
+        (ds.map (fun a => (a, vp a)) ++ pairsOf ds ++ pairsOf vnodes) M' = true ∧
+      cost d M' ≤ E.length := by
+  obtain ⟨M, hM, hMc⟩ := tjoin (pd ρ bd dist2) (pd_symm ρ bd dist2 h2)
+    (pd_triangle ρ bd dist2 h2 htri2 hlip) E hadj
+  obtain ⟨N, hleg, hv1, hreal, hNc⟩ := to_boundary_matching ρ vp bd d dist2 hvp hsymm hd_vp hd_same hd_le M
+    (fun v => by rw [hM v]; omega)
+  -- real vertices: covered once iff in `ds`
+  have F1 : ∀ v, ρ v = true → deg N v = if v ∈ ds then 1 else 0 := by
+    intro v hv
+    rw [hreal v hv, hM v]
+    by_cases hm : v ∈ ds
+    · rw [if_pos hm]; exact ((hodd v).mp hm).2
+    · rw [if_neg hm]
+      have : ¬ (deg E v % 2 = 1) := fun h => hm ((hodd v).mpr ⟨hv, h⟩)
+      omega
+  have F2 : ∀ x ∈ N, ∀ u, (u = x.1 ∨ u = x.2) → ρ u = true → u ∈ ds := by
+    intro x hx u hu hru
+    have h1 := deg_ge_of_mem N x u hx
+    have h2 : 1 ≤ ind x.1 u + ind x.2 u := by
+      rcases hu with rfl | rfl
+      · rw [ind_self]; omega
+      · rw [ind_self]; omega
+    have := F1 u hru
+    by_cases hm : u ∈ ds
+    · exact hm
+    · rw [if_neg hm] at this; omega
+  have F3 : ∀ w, ρ w = false → 0 < deg N w → w ∈ vnodes := by
+    intro w hw hpos
+    obtain ⟨x, hx, hxw⟩ := mem_ends_of_deg_pos N w hpos
+    rcases hleg x hx with ⟨r1, r2, _⟩ | ⟨r1, e⟩ | ⟨r2, e⟩
+    · rcases hxw with rfl | rfl
+      · rw [r1] at hw; cases hw
+      · rw [r2] at hw; cases hw
+    · rcases hxw with rfl | rfl
+      · rw [r1] at hw; cases hw
+      · rw [e]; exact hvpmem _ (F2 x hx _ (.inl rfl) r1)
+    · rcases hxw with rfl | rfl
+      · rw [e]; exact hvpmem _ (F2 x hx _ (.inr rfl) r2)
+      · rw [r2] at hw; cases hw
+  have hdsreal : ∀ v ∈ ds, ρ v = true := fun v hv => ((hodd v).mp hv).1
+  let free : V → Bool := fun w => deg N w == 0
+  have hperm1 : (ends N).Perm (ds ++ vnodes.filter (fun w => !free w)) := by
+    rw [List.perm_iff_count]
+    intro v
+    rw [List.count_append, count_filter_nodup vnodes hvn]
+    show deg N v = _
+    cases hv : ρ v
+    · have c0 : ds.count v = 0 := List.count_eq_zero_of_not_mem (fun h => by
+        rw [hdsreal v h] at hv; cases hv)
+      rw [c0]
+      have := hv1 v hv
+      by_cases hz : deg N v = 0
+      · rw [hz]; simp [free, hz]
+      · have hin := F3 v hv (by omega)
+        have : deg N v = 1 := by omega
+        simp [free, this, hin]
+    · have c0 : ¬ (v ∈ vnodes ∧ (!free v) = true) := fun h => by rw [hvirt v h.1] at hv; cases hv
+      rw [if_neg c0, F1 v hv]
+      by_cases hm : v ∈ ds
+      · rw [if_pos hm, List.count_eq_one_of_mem hds hm]
+      · rw [if_neg hm, List.count_eq_zero_of_not_mem hm]
+  have hsplit : (vnodes.filter free ++ vnodes.filter (fun w => !free w)).Perm vnodes :=
+    List.filter_append_perm free vnodes
+  have hrest_even : (vnodes.filter free).length % 2 = 0 := by
+    have l1 := hperm1.length_eq
+    have l2 := hsplit.length_eq
+    rw [length_ends, List.length_append] at l1
+    rw [List.length_append] at l2
+    omega
+  have hrest_nd : (vnodes.filter free).Nodup := hvn.filter _
+  refine ⟨N ++ pairUp (vnodes.filter free), pm_of_perm _ _ _ ?_ ?_ ?_, ?_⟩
+  · rw [List.nodup_append]
+    refine ⟨hds, hvn, fun a ha b hb e => ?_⟩
+    have := hdsreal a ha
+    rw [e, hvirt b hb] at this; cases this
+  · rw [ends_append, ends_pairUp _ hrest_even]
+    refine (hperm1.append_right _).trans ?_
+    rw [List.append_assoc]
+    exact List.Perm.append_left ds (List.perm_append_comm.trans hsplit)
+  · intro x hx
+    rcases List.mem_append.mp hx with hx | hx
+    · rcases hleg x hx with ⟨r1, r2, hne⟩ | ⟨r1, e⟩ | ⟨r2, e⟩
+      · have m1 := F2 x hx _ (.inl rfl) r1
+        have m2 := F2 x hx _ (.inr rfl) r2
+        rcases pairsOf_complete ds x.1 x.2 m1 m2 hne with h | h
+        · exact .inl (List.mem_append_left _ (List.mem_append_right _ h))
+        · exact .inr (List.mem_append_left _ (List.mem_append_right _ h))
+      · refine .inl (List.mem_append_left _ (List.mem_append_left _ ?_))
+        exact List.mem_map.mpr ⟨x.1, F2 x hx _ (.inl rfl) r1, by rw [← e]⟩
+      · refine .inr (List.mem_append_left _ (List.mem_append_left _ ?_))
+        exact List.mem_map.mpr ⟨x.2, F2 x hx _ (.inr rfl) r2, by rw [← e]⟩
+    · obtain ⟨m1, m2, hne⟩ := pairUp_mem _ hrest_nd x hx
+      rcases pairsOf_complete vnodes x.1 x.2 (List.mem_filter.mp m1).1 (List.mem_filter.mp m2).1 hne with h | h
+      · exact .inl (List.mem_append_right _ h)
+      · exact .inr (List.mem_append_right _ h)
+  · rw [cost_append, cost_eq_zero d (pairUp (vnodes.filter free)) (fun x hx => by
+      obtain ⟨m1, m2, _⟩ := pairUp_mem _ hrest_nd x hx
+      exact hd_out _ (List.mem_filter.mp m1).1 _ (List.mem_filter.mp m2).1)]
+    omega
+
+end boundary
 
 end Qec.TJoin
 
@@ -760,3 +1129,477 @@ theorem chain_matching (R C : Int) (hR : 2 ≤ R) (hC : 2 ≤ C) (H : ToricL.Spe
     exact toricDistT_eq R C x.1 x.2 (by rw [h1, h2])
 
 end Qec.ChainToric
+
+
+/-! ## the planar code: plaquettes of one type + the boundary -/
+
+namespace Qec.ChainPlanar
+open Qec Qec.Dec Qec.Planar Qec.TJoin Qec.NaiveDecode Qec.MwpmReduce
+
+/-- real (in-lattice) plaquette of type `t` (`true` = primal) -/
+def rho (R C : Int) (t : Bool) (a : Idx2) : Bool :=
+  isPlaquette a.1 a.2 && inBounds R C a.1 a.2 && (isPrimal a.1 a.2 == t)
+
+theorem rho_iff (R C : Int) (t : Bool) (a : Idx2) :
+    rho R C t a = true ↔ (a.1 + a.2) % 2 = 1 ∧ (0 ≤ a.1 ∧ a.1 ≤ 2 * R - 2 ∧ 0 ≤ a.2 ∧ a.2 ≤ 2 * C - 2) ∧
+      isPrimal a.1 a.2 = t := by
+  unfold rho
+  simp only [Bool.and_eq_true, beq_iff_eq, isPlaquette_iff, inBounds_iff]
+  exact and_assoc
+
+/-- the plaquette metric on arbitrary index pairs (equals `|Δr|/2 + |Δc|/2` between plaquettes of one type) -/
+def dist2 (a b : Idx2) : Nat := ((b.1 - a.1).natAbs + (b.2 - a.2).natAbs + 1) / 2
+
+/-- distance to the nearer matching boundary of type `t` (rows −1, 2R−1 for primal; columns −1, 2C−1 for dual) -/
+def bdP (R C : Int) (t : Bool) (a : Idx2) : Nat :=
+  if t then (min (a.1 + 1).natAbs (2 * R - 1 - a.1).natAbs + 1) / 2
+  else (min (a.2 + 1).natAbs (2 * C - 1 - a.2).natAbs + 1) / 2
+
+theorem dist2_symm (a b : Idx2) : dist2 a b = dist2 b a := by unfold dist2; omega
+theorem dist2_triangle (a b c : Idx2) : dist2 a c ≤ dist2 a b + dist2 b c := by unfold dist2; omega
+theorem bdP_lip (R C : Int) (t : Bool) (a b : Idx2) : bdP R C t a ≤ dist2 a b + bdP R C t b := by
+  unfold bdP dist2; cases t <;> simp only [if_true, Bool.false_eq_true, if_false] <;> omega
+
+theorem vpT_primal (R C : Int) (a : Idx2) (hp : (a.1 + a.2) % 2 = 1) (ht : a.2 % 2 = 0) :
+    vpT R C a = if (a.1 - 1).natAbs ≤ (2 * R - 3 - a.1).natAbs then (1 - 2, a.2) else (2 * R - 3 + 2, a.2) := by
+  unfold vpT virtualPlaquette
+  rw [(isPlaquette_iff _ _).mpr hp, (isPrimal_iff _ _).mpr ht]
+  simp only [Bool.not_true, Bool.false_eq_true, if_false, if_true]
+  by_cases hc : (a.1 - 1).natAbs ≤ (2 * R - 3 - a.1).natAbs <;> simp only [hc, if_true, if_false]
+
+theorem vpT_dual (R C : Int) (a : Idx2) (hp : (a.1 + a.2) % 2 = 1) (ht : a.2 % 2 = 1) :
+    vpT R C a = if (a.2 - 1).natAbs ≤ (2 * C - 3 - a.2).natAbs then (a.1, 1 - 2) else (a.1, 2 * C - 3 + 2) := by
+  unfold vpT virtualPlaquette
+  rw [(isPlaquette_iff _ _).mpr hp, (isPrimal_eq_false_iff _ _).mpr ht]
+  simp only [Bool.not_true, Bool.false_eq_true, if_false]
+  by_cases hc : (a.2 - 1).natAbs ≤ (2 * C - 3 - a.2).natAbs <;> simp only [hc, if_true, if_false]
+
+/-- the decoder's distance between plaquettes of one type, at least one in the lattice -/
+theorem distT_exact (R C : Int) (a b : Idx2) (ha : (a.1 + a.2) % 2 = 1) (hb : (b.1 + b.2) % 2 = 1)
+    (hab : a.2 % 2 = b.2 % 2) (hin : inBounds R C a.1 a.2 = true ∨ inBounds R C b.1 b.2 = true) :
+    distT R C a b = ((b.1 - a.1) / 2).natAbs + ((b.2 - a.2) / 2).natAbs := by
+  unfold distT distance
+  rw [translation_exact R C a b ((isPlaquette_iff _ _).mpr ha) ((isPlaquette_iff _ _).mpr hb)
+    ((isPrimal_eq_iff _ _ _ _).mpr hab) hin]
+  rfl
+
+theorem rho_parity (R C : Int) (t : Bool) (a : Idx2) (h : rho R C t a = true) :
+    (a.1 + a.2) % 2 = 1 ∧ (0 ≤ a.1 ∧ a.1 ≤ 2 * R - 2 ∧ 0 ≤ a.2 ∧ a.2 ≤ 2 * C - 2) ∧
+      (t = true → a.2 % 2 = 0) ∧ (t = false → a.2 % 2 = 1) := by
+  obtain ⟨h1, h2, h3⟩ := (rho_iff R C t a).mp h
+  refine ⟨h1, h2, fun e => ?_, fun e => ?_⟩
+  · rw [e] at h3; exact (isPrimal_iff _ _).mp h3
+  · rw [e] at h3; exact (isPrimal_eq_false_iff _ _).mp h3
+
+theorem rho_vp (R C : Int) (t : Bool) (a : Idx2) (h : rho R C t a = true) : rho R C t (vpT R C a) = false := by
+  obtain ⟨h1, h2, h3, h4⟩ := rho_parity R C t a h
+  have : inBounds R C (vpT R C a).1 (vpT R C a).2 = false := by
+    rw [inBounds_eq_false_iff]
+    cases t
+    · rw [vpT_dual R C a h1 (h4 rfl)]; split <;> simp only <;> omega
+    · rw [vpT_primal R C a h1 (h3 rfl)]; split <;> simp only <;> omega
+  unfold rho
+  rw [this]; simp
+
+theorem distT_vp (R C : Int) (t : Bool) (a : Idx2) (h : rho R C t a = true) :
+    distT R C a (vpT R C a) = bdP R C t a := by
+  obtain ⟨h1, h2, h3, h4⟩ := rho_parity R C t a h
+  have hin : inBounds R C a.1 a.2 = true := (inBounds_iff _ _ _ _).mpr h2
+  cases t
+  · have hc := h4 rfl
+    have e := vpT_dual R C a h1 (h4 rfl)
+    rw [distT_exact R C a _ h1 (by rw [e]; split <;> simp only <;> omega)
+      (by rw [e]; split <;> simp only <;> omega) (.inl hin), e]
+    unfold bdP
+    split <;> simp only [Bool.false_eq_true, if_false] <;> omega
+  · have hc := h3 rfl
+    have e := vpT_primal R C a h1 (h3 rfl)
+    rw [distT_exact R C a _ h1 (by rw [e]; split <;> simp only <;> omega)
+      (by rw [e]; split <;> simp only <;> omega) (.inl hin), e]
+    unfold bdP
+    split <;> simp only [if_true] <;> omega
+
+theorem distT_le_dist2 (R C : Int) (t : Bool) (a b : Idx2) (ha : rho R C t a = true) (hb : rho R C t b = true) :
+    distT R C a b ≤ dist2 a b := by
+  obtain ⟨a1, a2, a3, a4⟩ := rho_parity R C t a ha
+  obtain ⟨b1, b2, b3, b4⟩ := rho_parity R C t b hb
+  rw [distT_exact R C a b a1 b1 (by cases t <;> simp_all) (.inl ((inBounds_iff _ _ _ _).mpr a2))]
+  unfold dist2
+  have : a.2 % 2 = b.2 % 2 := by cases t <;> simp_all
+  omega
+
+theorem distT_same_vp (R C : Int) (t : Bool) (a b : Idx2) (ha : rho R C t a = true) (hb : rho R C t b = true)
+    (hv : vpT R C a = vpT R C b) : distT R C a b ≤ bdP R C t a + bdP R C t b := by
+  obtain ⟨a1, a2, a3, a4⟩ := rho_parity R C t a ha
+  obtain ⟨b1, b2, b3, b4⟩ := rho_parity R C t b hb
+  cases t
+  · have ac := a4 rfl
+    have bc := b4 rfl
+    rw [distT_exact R C a b a1 b1 (by rw [a4 rfl, b4 rfl]) (.inl ((inBounds_iff _ _ _ _).mpr a2))]
+    rw [vpT_dual R C a a1 (a4 rfl), vpT_dual R C b b1 (b4 rfl)] at hv
+    unfold bdP
+    simp only [Bool.false_eq_true, if_false]
+    split at hv <;> split at hv <;> simp only [Prod.mk.injEq] at hv <;> omega
+  · have ac := a3 rfl
+    have bc := b3 rfl
+    rw [distT_exact R C a b a1 b1 (by rw [a3 rfl, b3 rfl]) (.inl ((inBounds_iff _ _ _ _).mpr a2))]
+    rw [vpT_primal R C a a1 (a3 rfl), vpT_primal R C b b1 (b3 rfl)] at hv
+    unfold bdP
+    simp only [if_true]
+    split at hv <;> split at hv <;> simp only [Prod.mk.injEq] at hv <;> omega
+
+/-- the decoder's distance is symmetric on all index pairs -/
+theorem distT_symm (R C : Int) (a b : Idx2) : distT R C a b = distT R C b a := by
+  unfold distT distance translation
+  cases ha : isPlaquette a.1 a.2 <;> cases hb : isPlaquette b.1 b.2 <;>
+    simp only [Bool.not_false, Bool.not_true, if_true, Bool.false_eq_true, if_false, Except.map]
+  by_cases hp : isPrimal a.1 a.2 = isPrimal b.1 b.2
+  · have hp' : isPrimal b.1 b.2 = isPrimal a.1 a.2 := hp.symm
+    have h1 := (isPlaquette_iff _ _).mp ha
+    have h2 := (isPlaquette_iff _ _).mp hb
+    have h3 := (isPrimal_eq_iff _ _ _ _).mp hp
+    rw [hp]
+    simp only [bne_self_eq_false, Bool.false_eq_true, if_false]
+    cases inBounds R C a.1 a.2 <;> cases inBounds R C b.1 b.2 <;>
+      simp only [Bool.not_false, Bool.not_true, Bool.and_self, Bool.and_true, Bool.and_false, if_true,
+        Bool.false_eq_true, if_false] <;> omega
+  · have hp' : ¬ isPrimal b.1 b.2 = isPrimal a.1 a.2 := fun e => hp e.symm
+    simp [hp, hp']
+
+theorem distT_out (R C : Int) (a b : Idx2) (ha : inBounds R C a.1 a.2 = false) (hb : inBounds R C b.1 b.2 = false) :
+    distT R C a b = 0 := by
+  unfold distT distance translation
+  rw [ha, hb]
+  cases isPlaquette a.1 a.2 <;> cases isPlaquette b.1 b.2 <;>
+    cases (isPrimal a.1 a.2 != isPrimal b.1 b.2) <;> rfl
+
+/-! ### every qubit of the planar code is an edge between two plaquettes (real or virtual) of either type -/
+
+def opOfP (t : Bool) : P1 := if t then P1.X else P1.Z
+
+/-- the two plaquettes of type `t` adjacent to the site `s` (N/S or W/E neighbours) -/
+def edgeP (t : Bool) (s : Idx2) : Idx2 × Idx2 :=
+  if (s.1 % 2 == 0) == t then ((s.1 - 1, s.2), (s.1 + 1, s.2)) else ((s.1, s.2 - 1), (s.1, s.2 + 1))
+
+theorem endpoint_of (R C : Int) (a : Idx2) (hp : (a.1 + a.2) % 2 = 1)
+    (h1 : a.2 % 2 = 0 → -1 ≤ a.1 ∧ a.1 ≤ 2 * R - 1 ∧ 0 ≤ a.2 ∧ a.2 ≤ 2 * C - 2)
+    (h2 : a.2 % 2 = 1 → 0 ≤ a.1 ∧ a.1 ≤ 2 * R - 2 ∧ -1 ≤ a.2 ∧ a.2 ≤ 2 * C - 1) :
+    PlanarL.Endpoint R C a := by
+  have hpl := (isPlaquette_iff a.1 a.2).mpr hp
+  by_cases hin : 0 ≤ a.1 ∧ a.1 ≤ 2 * R - 2 ∧ 0 ≤ a.2 ∧ a.2 ≤ 2 * C - 2
+  · exact .inl ⟨hpl, (inBounds_iff _ _ _ _).mpr hin⟩
+  · refine .inr ⟨hpl, ?_⟩
+    by_cases hc : a.2 % 2 = 0
+    · have := h1 hc
+      exact .inl ⟨(isPrimal_iff _ _).mpr hc, by omega, by omega, by omega⟩
+    · have hc' : a.2 % 2 = 1 := by omega
+      have := h2 hc'
+      exact .inr ⟨(isPrimal_eq_false_iff _ _).mpr hc', by omega, by omega, by omega⟩
+
+theorem rho_false_arith (R C : Int) (t : Bool) (a : Idx2) (h : rho R C t a = false)
+    (hp : (a.1 + a.2) % 2 = 1) (hc : a.2 % 2 = if t then 0 else 1) :
+    ¬ (0 ≤ a.1 ∧ a.1 ≤ 2 * R - 2 ∧ 0 ≤ a.2 ∧ a.2 ≤ 2 * C - 2) := by
+  intro hb
+  have : rho R C t a = true := (rho_iff R C t a).mpr ⟨hp, hb, by
+    cases t
+    · exact (isPrimal_eq_false_iff _ _).mpr (by simpa using hc)
+    · exact (isPrimal_iff _ _).mpr (by simpa using hc)⟩
+  rw [this] at h; cases h
+
+theorem edgeP_spec (R C : Int) (hR : 2 ≤ R) (hC : 2 ≤ C) (t : Bool) (s : Idx2)
+    (hs : (s.1 + s.2) % 2 = 0) (hb : 0 ≤ s.1 ∧ s.1 ≤ 2 * R - 2 ∧ 0 ≤ s.2 ∧ s.2 ≤ 2 * C - 2) :
+    PlanarL.Endpoint R C (edgeP t s).1 ∧ PlanarL.Endpoint R C (edgeP t s).2 ∧
+    isPrimal (edgeP t s).1.1 (edgeP t s).1.2 = t ∧ isPrimal (edgeP t s).2.1 (edgeP t s).2.2 = t ∧
+    pd (rho R C t) (bdP R C t) dist2 (edgeP t s).1 (edgeP t s).2 ≤ 1 ∧
+    path R C (identity R C) (edgeP t s).1 (edgeP t s).2 = .ok (site R C (opOfP t) (identity R C) s) := by
+  have key : ∀ (a b : Idx2), (a.1 + a.2) % 2 = 1 → (b.1 + b.2) % 2 = 1 →
+      a.2 % 2 = (if t then 0 else 1) → b.2 % 2 = (if t then 0 else 1) →
+      (a.2 % 2 = 0 → -1 ≤ a.1 ∧ a.1 ≤ 2 * R - 1 ∧ 0 ≤ a.2 ∧ a.2 ≤ 2 * C - 2) →
+      (a.2 % 2 = 1 → 0 ≤ a.1 ∧ a.1 ≤ 2 * R - 2 ∧ -1 ≤ a.2 ∧ a.2 ≤ 2 * C - 1) →
+      (b.2 % 2 = 0 → -1 ≤ b.1 ∧ b.1 ≤ 2 * R - 1 ∧ 0 ≤ b.2 ∧ b.2 ≤ 2 * C - 2) →
+      (b.2 % 2 = 1 → 0 ≤ b.1 ∧ b.1 ≤ 2 * R - 2 ∧ -1 ≤ b.2 ∧ b.2 ≤ 2 * C - 1) →
+      ((b.1 - a.1 = 2 ∧ b.2 = a.2 ∧ s = (a.1 + 1, a.2)) ∨ (b.1 = a.1 ∧ b.2 - a.2 = 2 ∧ s = (a.1, a.2 + 1))) →
+      PlanarL.Endpoint R C a ∧ PlanarL.Endpoint R C b ∧ isPrimal a.1 a.2 = t ∧ isPrimal b.1 b.2 = t ∧
+      pd (rho R C t) (bdP R C t) dist2 a b ≤ 1 ∧
+      path R C (identity R C) a b = .ok (site R C (opOfP t) (identity R C) s) := by
+    intro a b ha hbp hac hbc ha1 ha2 hb1 hb2 hadj
+    have hta : isPrimal a.1 a.2 = t := by
+      cases t
+      · exact (isPrimal_eq_false_iff _ _).mpr (by simpa using hac)
+      · exact (isPrimal_iff _ _).mpr (by simpa using hac)
+    have htb : isPrimal b.1 b.2 = t := by
+      cases t
+      · exact (isPrimal_eq_false_iff _ _).mpr (by simpa using hbc)
+      · exact (isPrimal_iff _ _).mpr (by simpa using hbc)
+    have hs1 : 0 ≤ s.1 ∧ s.1 ≤ 2 * R - 2 ∧ 0 ≤ s.2 ∧ s.2 ≤ 2 * C - 2 := hb
+    refine ⟨endpoint_of R C a ha ha1 ha2, endpoint_of R C b hbp hb1 hb2, hta, htb, ?_, ?_⟩
+    · -- distance in the collapsed metric
+      unfold pd
+      cases hra : rho R C t a <;> cases hrb : rho R C t b <;>
+        simp only [Bool.false_eq_true, if_false, if_true]
+      · omega
+      · have na := rho_false_arith R C t a hra ha hac
+        unfold bdP
+        cases t <;> simp only [Bool.false_eq_true, if_false, if_true] at hac hbc ⊢ <;>
+          rcases hadj with ⟨e1, e2, e3⟩ | ⟨e1, e2, e3⟩ <;> rw [e3] at hs1 <;> simp only at hs1 <;> omega
+      · have nb := rho_false_arith R C t b hrb hbp hbc
+        unfold bdP
+        cases t <;> simp only [Bool.false_eq_true, if_false, if_true] at hac hbc ⊢ <;>
+          rcases hadj with ⟨e1, e2, e3⟩ | ⟨e1, e2, e3⟩ <;> rw [e3] at hs1 <;> simp only at hs1 <;> omega
+      · have : dist2 a b ≤ 1 := by
+          unfold dist2
+          rcases hadj with ⟨e1, e2, _⟩ | ⟨e1, e2, _⟩ <;> omega
+        omega
+    · -- the path is the single site
+      have hin : inBounds R C a.1 a.2 = true ∨ inBounds R C b.1 b.2 = true := by
+        rw [inBounds_iff, inBounds_iff]
+        rcases hadj with ⟨e1, e2, e3⟩ | ⟨e1, e2, e3⟩ <;> rw [e3] at hs1 <;> simp only at hs1 <;> omega
+      have htr := translation_exact R C a b ((isPlaquette_iff _ _).mpr ha) ((isPlaquette_iff _ _).mpr hbp)
+        (hta.trans htb.symm) hin
+      rw [path_eq_of_translation R C _ a b _ htr]
+      have hop : pathOp a = opOfP t := by unfold pathOp opOfP; rw [hta]
+      rw [hop]
+      congr 1
+      rcases hadj with ⟨e1, e2, e3⟩ | ⟨e1, e2, e3⟩
+      · have r1 : (b.1 - a.1) / 2 = 1 := by omega
+        have r2 : (b.2 - a.2) / 2 = 0 := by omega
+        simp only [r1, r2, pathSites, sites, show ¬((1 : Int) < 0) by decide, show ¬((0 : Int) < 0) by decide,
+          if_false, show Int.natAbs 1 = 1 from rfl, show Int.natAbs 0 = 0 from rfl, List.range_one,
+          List.range_zero, List.map_cons, List.map_nil, List.append_nil, List.foldl_cons, List.foldl_nil]
+        rw [e3]
+        congr 1
+        simp only [Int.natCast_zero, Int.mul_zero, Int.add_zero]
+      · have r1 : (b.1 - a.1) / 2 = 0 := by omega
+        have r2 : (b.2 - a.2) / 2 = 1 := by omega
+        simp only [r1, r2, pathSites, sites, show ¬((1 : Int) < 0) by decide, show ¬((0 : Int) < 0) by decide,
+          if_false, show Int.natAbs 1 = 1 from rfl, show Int.natAbs 0 = 0 from rfl, List.range_one,
+          List.range_zero, List.map_cons, List.map_nil, List.nil_append, List.foldl_cons, List.foldl_nil]
+        rw [e3]
+        congr 1
+        simp only [Int.natCast_zero, Int.mul_zero, Int.add_zero]
+  unfold edgeP
+  rcases Int.emod_two_eq s.1 with hr | hr
+  · -- even row (then even column)
+    cases t
+    · rw [if_neg (by simp [hr])]
+      exact key _ _ (by simp only; omega) (by simp only; omega) (by simp only [Bool.false_eq_true, if_false]; omega)
+        (by simp only [Bool.false_eq_true, if_false]; omega) (by simp only; omega) (by simp only; omega)
+        (by simp only; omega) (by simp only; omega)
+        (.inr ⟨rfl, by simp only; omega, by apply Prod.ext <;> simp only <;> omega⟩)
+    · rw [if_pos (by simp [hr])]
+      exact key _ _ (by simp only; omega) (by simp only; omega) (by simp only [if_true]; omega)
+        (by simp only [if_true]; omega) (by simp only; omega) (by simp only; omega)
+        (by simp only; omega) (by simp only; omega)
+        (.inl ⟨by simp only; omega, rfl, by apply Prod.ext <;> simp only <;> omega⟩)
+  · -- odd row (then odd column)
+    cases t
+    · rw [if_pos (by simp [hr])]
+      exact key _ _ (by simp only; omega) (by simp only; omega) (by simp only [Bool.false_eq_true, if_false]; omega)
+        (by simp only [Bool.false_eq_true, if_false]; omega) (by simp only; omega) (by simp only; omega)
+        (by simp only; omega) (by simp only; omega)
+        (.inl ⟨by simp only; omega, rfl, by apply Prod.ext <;> simp only <;> omega⟩)
+    · rw [if_neg (by simp [hr])]
+      exact key _ _ (by simp only; omega) (by simp only; omega) (by simp only [if_true]; omega)
+        (by simp only [if_true]; omega) (by simp only; omega) (by simp only; omega)
+        (by simp only; omega) (by simp only; omega)
+        (.inr ⟨rfl, by simp only; omega, by apply Prod.ext <;> simp only <;> omega⟩)
+
+/-! ### from flat qubit numbers back to planar site indices; the chain of type `t` -/
+
+def unflatP (R C : Int) (f : Nat) : Idx2 :=
+  ((allIndices R C).find? fun s => isSite s.1 s.2 && ((flatten R C s.1 s.2).toNat == f)).getD (0, 0)
+
+theorem unflatP_spec (R C : Int) (hR : 2 ≤ R) (hC : 2 ≤ C) (f : Nat) (hf : f < (nQubits R C).toNat) :
+    ((unflatP R C f).1 + (unflatP R C f).2) % 2 = 0 ∧
+    (0 ≤ (unflatP R C f).1 ∧ (unflatP R C f).1 ≤ 2 * R - 2 ∧ 0 ≤ (unflatP R C f).2 ∧
+      (unflatP R C f).2 ≤ 2 * C - 2) ∧
+    (flatten R C (unflatP R C f).1 (unflatP R C f).2).toNat = f := by
+  obtain ⟨r, c, hsite, hfl⟩ := PlanarCode.flatten_surj R C hR hC (f : Int) (by omega) (by omega)
+  unfold PlanarCode.SiteIn at hsite
+  unfold unflatP
+  cases hfind : (allIndices R C).find? fun s => isSite s.1 s.2 && ((flatten R C s.1 s.2).toNat == f) with
+  | none =>
+    exfalso
+    have := List.find?_eq_none.mp hfind (r, c) ((mem_allIndices R C (r, c)).mpr
+      ((inBounds_iff _ _ _ _).mpr ⟨hsite.1, hsite.2.1, hsite.2.2.1, hsite.2.2.2.1⟩))
+    apply this
+    simp only [Bool.and_eq_true, beq_iff_eq]
+    exact ⟨(isSite_iff _ _).mpr hsite.2.2.2.2, by rw [hfl]; exact Int.toNat_natCast f⟩
+  | some s =>
+    have hp := List.find?_some hfind
+    have hm := (mem_allIndices R C s).mp (List.mem_of_find?_eq_some hfind)
+    simp only [Bool.and_eq_true, beq_iff_eq] at hp
+    exact ⟨(isSite_iff _ _).mp hp.1, (inBounds_iff _ _ _ _).mp hm, hp.2⟩
+
+theorem applyOps_eq_sitesP (R C : Int) (hR : 2 ≤ R) (hC : 2 ≤ C) (op : P1) (fs : List Nat)
+    (hfs : ∀ f ∈ fs, f < (nQubits R C).toNat) (v : BVec) :
+    ToricLemmas.applyOps (nQubits R C).toNat op v fs = sites R C op v (fs.map (unflatP R C)) := by
+  induction fs generalizing v with
+  | nil => rfl
+  | cons f fs ih =>
+    obtain ⟨_, hb, hfl⟩ := unflatP_spec R C hR hC f (hfs f (by simp))
+    rw [ToricLemmas.applyOps_cons, ih (fun g hg => hfs g (by simp [hg]))]
+    unfold sites
+    rw [List.map_cons, List.foldl_cons]
+    congr 1
+    unfold site
+    rw [if_pos ((inBounds_iff _ _ _ _).mpr hb), hfl]
+
+/-- the X-component (primal, `t = true`) resp. Z-component (dual) of an error -/
+def partP (t : Bool) (e : BVec) : BVec := if t then xPart e else zPart e
+
+def chainSitesP (R C : Int) (t : Bool) (e : BVec) : List Idx2 :=
+  (if t then ChainToric.suppX (PlanarL.nq R C) e else ChainToric.suppZ (PlanarL.nq R C) e).map (unflatP R C)
+
+def chainEdgesP (R C : Int) (t : Bool) (e : BVec) : List (Idx2 × Idx2) := (chainSitesP R C t e).map (edgeP t)
+
+theorem chainSitesP_spec (R C : Int) (hR : 2 ≤ R) (hC : 2 ≤ C) (t : Bool) (e : BVec) :
+    ∀ s ∈ chainSitesP R C t e, (s.1 + s.2) % 2 = 0 ∧ (0 ≤ s.1 ∧ s.1 ≤ 2 * R - 2 ∧ 0 ≤ s.2 ∧ s.2 ≤ 2 * C - 2) := by
+  intro s hs
+  unfold chainSitesP at hs
+  obtain ⟨f, hf, rfl⟩ := List.mem_map.mp hs
+  have hlt : f < (nQubits R C).toNat := by
+    cases t
+    · exact ChainToric.supp_lt _ _ f hf
+    · exact ChainToric.supp_lt _ _ f hf
+  exact ⟨(unflatP_spec R C hR hC f hlt).1, (unflatP_spec R C hR hC f hlt).2.1⟩
+
+theorem partP_eq_sites (R C : Int) (hR : 2 ≤ R) (hC : 2 ≤ C) (t : Bool) (e : BVec)
+    (he : e.length = 2 * PlanarL.nq R C) :
+    partP t e = sites R C (opOfP t) (identity R C) (chainSitesP R C t e) := by
+  unfold partP chainSitesP opOfP
+  cases t
+  · simp only [Bool.false_eq_true, if_false]
+    rw [ChainToric.zPart_eq_applyOps _ e he]
+    exact applyOps_eq_sitesP R C hR hC _ _ (ChainToric.supp_lt _ _) _
+  · simp only [if_true]
+    rw [ChainToric.xPart_eq_applyOps _ e he]
+    exact applyOps_eq_sitesP R C hR hC _ _ (ChainToric.supp_lt _ _) _
+
+theorem chainEdgesP_length (R C : Int) (t : Bool) (e : BVec) (he : e.length = 2 * PlanarL.nq R C) :
+    (chainEdgesP R C t e).length = bsfWt (partP t e) := by
+  unfold chainEdgesP chainSitesP partP
+  rw [List.length_map, List.length_map]
+  cases t
+  · simp only [Bool.false_eq_true, if_false]; rw [ChainToric.bsfWt_zPart _ e he]
+  · simp only [if_true]; rw [ChainToric.bsfWt_xPart _ e he]
+
+theorem chainEdgesP_spec (R C : Int) (hR : 2 ≤ R) (hC : 2 ≤ C) (t : Bool) (e : BVec) :
+    ∀ x ∈ chainEdgesP R C t e, PlanarL.Ok R C x.1 x.2 ∧ isPrimal x.1.1 x.1.2 = t ∧ isPrimal x.2.1 x.2.2 = t ∧
+      pd (rho R C t) (bdP R C t) dist2 x.1 x.2 ≤ 1 := by
+  intro x hx
+  unfold chainEdgesP at hx
+  obtain ⟨s, hs, rfl⟩ := List.mem_map.mp hx
+  obtain ⟨hsite, hb⟩ := chainSitesP_spec R C hR hC t e s hs
+  obtain ⟨h1, h2, h3, h4, h5, _⟩ := edgeP_spec R C hR hC t s hsite hb
+  exact ⟨⟨h3.trans h4.symm, .inl ⟨h1, h2⟩⟩, h3, h4, h5⟩
+
+theorem partP_eq_xorAll (R C : Int) (hR : 2 ≤ R) (hC : 2 ≤ C) (t : Bool) (e : BVec)
+    (he : e.length = 2 * PlanarL.nq R C) :
+    partP t e = xorAll (2 * PlanarL.nq R C) ((chainEdgesP R C t e).map fun x => PlanarL.pathT R C x.1 x.2) := by
+  rw [partP_eq_sites R C hR hC t e he]
+  have h1 := foldl_step_eq_xorAll (2 * PlanarL.nq R C) (site R C (opOfP t))
+    (fun v x h => by rw [PlanarL.site_length, h]) (fun v x h => PlanarL.site_xor R C _ v x h)
+    (chainSitesP R C t e)
+  have hid : identity R C = zeros (2 * PlanarL.nq R C) := rfl
+  unfold sites
+  rw [hid]
+  refine h1.trans ?_
+  unfold chainEdgesP
+  rw [List.map_map]
+  congr 1
+  apply List.map_congr_left
+  intro s hs
+  obtain ⟨hsite, hb⟩ := chainSitesP_spec R C hR hC t e s hs
+  have := (edgeP_spec R C hR hC t s hsite hb).2.2.2.2.2
+  exact (PlanarL.pathT_of_ok R C _ _ _ this).symm
+
+theorem synd_partP (R C : Int) (hR : 2 ≤ R) (hC : 2 ≤ C) (H : PlanarL.Spec R C) (t : Bool) (e : BVec)
+    (he : e.length = 2 * PlanarL.nq R C) :
+    synd (stabilizers R C) (partP t e) =
+      (plaquetteIndices R C).map fun p => decide (deg (chainEdgesP R C t e) p % 2 = 1) := by
+  rw [partP_eq_xorAll R C hR hC t e he]
+  exact Pairing.pairing (PlanarL.pathSpec R C H) (chainEdgesP R C t e)
+    (fun x hx => (chainEdgesP_spec R C hR hC t e x hx).1)
+
+/-- **defects = real odd-degree vertices** (planar): the defects of type `t` in the syndrome of the whole
+    error are exactly the in-lattice plaquettes of type `t` of odd degree in the chain of type `t` -/
+theorem mem_planarDefects_iff (R C : Int) (hR : 2 ≤ R) (hC : 2 ≤ C) (H : PlanarL.Spec R C) (t : Bool)
+    (e : BVec) (he : e.length = 2 * PlanarL.nq R C) (p : Idx2) :
+    p ∈ planarDefects R C (synd (stabilizers R C) e) t ↔
+      rho R C t p = true ∧ deg (chainEdgesP R C t e) p % 2 = 1 := by
+  have hx := synd_partP R C hR hC H true e he
+  have hz := synd_partP R C hR hC H false e he
+  have hxl := xPart_length e _ he
+  have hzl := zPart_length e _ he
+  have hsum : synd (stabilizers R C) e = (plaquetteIndices R C).map fun p =>
+      xor (decide (deg (chainEdgesP R C true e) p % 2 = 1)) (decide (deg (chainEdgesP R C false e) p % 2 = 1)) := by
+    rw [← Pairing.xorV_map_map, ← hx, ← hz]
+    conv => lhs; rw [← xPart_xor_zPart e _ he]
+    exact C09.synd_add _ _ _ (by rw [hxl, hzl]) (by rw [hxl]; omega)
+      (fun r hr => by rw [PlanarL.stabilizers_length R C r hr, hxl])
+  have hother : ∀ (t' : Bool), t' ≠ t → rho R C t p = true → deg (chainEdgesP R C t' e) p = 0 := by
+    intro t' ht' hp
+    refine deg_eq_zero_of_pred _ (fun q => isPrimal q.1 q.2 = t')
+      (fun x hx => ⟨(chainEdgesP_spec R C hR hC t' e x hx).2.1, (chainEdgesP_spec R C hR hC t' e x hx).2.2.1⟩) p ?_
+    rw [((rho_iff R C t p).mp hp).2.2]
+    exact fun e => ht' e.symm
+  have hread : syndromeToPlaquettes R C ((plaquetteIndices R C).map fun p =>
+      xor (decide (deg (chainEdgesP R C true e) p % 2 = 1)) (decide (deg (chainEdgesP R C false e) p % 2 = 1))) =
+      (plaquetteIndices R C).filter fun p =>
+      xor (decide (deg (chainEdgesP R C true e) p % 2 = 1)) (decide (deg (chainEdgesP R C false e) p % 2 = 1)) :=
+    ToricLemmas.filterMap_sel_map (plaquetteIndices R C) _
+  unfold planarDefects
+  rw [hsum, hread, List.mem_filter, List.mem_filter]
+  simp only [beq_iff_eq]
+  constructor
+  · rintro ⟨⟨hmem, hb⟩, hpt⟩
+    have hreal := (H.plaquetteIndices_spec.2 p).mp hmem
+    have hrho : rho R C t p = true :=
+      (rho_iff R C t p).mpr ⟨(isPlaquette_iff _ _).mp hreal.1, (inBounds_iff _ _ _ _).mp hreal.2, hpt⟩
+    refine ⟨hrho, ?_⟩
+    cases t
+    · rw [hother true (by decide) hrho] at hb; simpa using hb
+    · rw [hother false (by decide) hrho] at hb; simpa using hb
+  · rintro ⟨hrho, hodd⟩
+    obtain ⟨h1, h2, h3⟩ := (rho_iff R C t p).mp hrho
+    refine ⟨⟨(H.plaquetteIndices_spec.2 p).mpr ⟨(isPlaquette_iff _ _).mpr h1, (inBounds_iff _ _ _ _).mpr h2⟩, ?_⟩, h3⟩
+    cases t
+    · rw [hother true (by decide) hrho]; simpa using hodd
+    · rw [hother false (by decide) hrho]; simpa using hodd
+
+theorem planarDefects_nodup (R C : Int) (H : PlanarL.Spec R C) (s : BVec) (t : Bool) :
+    (planarDefects R C s t).Nodup := by
+  unfold planarDefects
+  exact (Pairing.pick_nodup _ _ H.plaquetteIndices_spec.1).filter _
+
+/-- **chain → matching on the planar code** (helper form): the decoder's graph of type `t` for the
+    syndrome of ANY error `e` (defects, the nearest virtual plaquette of each, the extra node on odd
+    totals; weights `distance`, 0 among virtual nodes) has a perfect matching of total weight at most
+    the weight of the component of `e` that causes those defects -/
+theorem chain_matching_planar (R C : Int) (hR : 2 ≤ R) (hC : 2 ≤ C) (H : PlanarL.Spec R C) (t : Bool)
+    (e : BVec) (he : e.length = 2 * PlanarL.nq R C) :
+    ∃ M : List (Idx2 × Idx2),
+      isPerfectMatchingOfGraph (planarNodes R C t (planarDefects R C (synd (stabilizers R C) e) t))
+        (planarEdges R C t (planarDefects R C (synd (stabilizers R C) e) t)) M = true ∧
+      cost (distT R C) M ≤ bsfWt (partP t e) := by
+  have hds := fun d hd => PlanarL.defects_real R C H (synd (stabilizers R C) e) t d hd
+  obtain ⟨M, hM, hc⟩ := tjoin_boundary (rho R C t) (vpT R C) (bdP R C t) (distT R C) dist2
+    (rho_vp R C t) (distT_symm R C) (distT_vp R C t) (distT_same_vp R C t) (distT_le_dist2 R C t)
+    dist2_symm dist2_triangle (bdP_lip R C t)
+    (chainEdgesP R C t e) (fun x hx => (chainEdgesP_spec R C hR hC t e x hx).2.2.2)
+    (planarDefects R C (synd (stabilizers R C) e) t) (planarDefects_nodup R C H _ t)
+    (mem_planarDefects_iff R C hR hC H t e he)
+    (planarVNodes R C t (planarDefects R C (synd (stabilizers R C) e) t))
+    (PlanarL.vnodes_nodup R C H t _ hds)
+    (fun w hw => by
+      have := (PlanarL.vnodes_out R C H t _ hds w hw).1.2
+      unfold rho; rw [this]; simp)
+    (fun a ha => PlanarL.vpT_mem_vnodes R C t _ a ha)
+    (PlanarL.vnodes_parity R C t _)
+    (fun x hx y hy => distT_out R C x y (PlanarL.vnodes_out R C H t _ hds x hx).1.2
+      (PlanarL.vnodes_out R C H t _ hds y hy).1.2)
+  rw [chainEdgesP_length R C t e he] at hc
+  exact ⟨M, hM, hc⟩
+
+end Qec.ChainPlanar
